@@ -69,6 +69,8 @@ def draw_env(R):
         env['ncsID'] = False
     if R.random() < 0.15:
         env['mid_after'] = True
+    if R.random() < 0.08:
+        env['mid_pad'] = R.choice([[' ', ''], ['', ' '], ['\n    ', '\n  '], ['\t', '\n'], ['  ', '  ']])
     if R.random() < 0.2:
         env['extra'] = R.sample(['mosGroup', 'x-extra', 'heartbeat', 'custom'], R.randint(1, 2))
     return env
@@ -427,6 +429,8 @@ def generate(seed, profile_name, faulty=None):
         op['env'] = draw_env(R)
         st = {'k': 'msg', 'op': op, 'knobs': draw_knobs(R, plain), 'path': R.choice(['str', 'str', 'bytes', 'file', 'file', 's3', 'pathlib']),
               'via': R.choice(['MosFile', 'MosFile', 'cls']), 'twin_lag': R.choice(lags)}
+        if R.random() < 0.06:
+            st['key'] = '%d+0100-%s%%2B.mos.xml' % (op['mid'], op['type'])      # a key with characters URL-decoding would change
         if why:
             st['channel'] = why
         if faulty and P.get('foreign_rate', 0.03) and R.random() < P.get('foreign_rate', 0.03) \
